@@ -571,6 +571,23 @@ def oracle_C10(sc, res):
                 for i in lst:
                     if i["start"] > t_c + 0.3:
                         return f"{tn} attempt {i['attempt']} was spawned {1000 * (i['start'] - t_c):.0f} ms after cancellation began"
+    # tests already running are left to finish unless the cause is a signal: every process alive when a
+    # non-signal cancellation began ends the way it was scripted to (its own exit code / its own signal)
+    if canc and all(c["reason"] in ("setup script failure", "test failure", "reporting error") for c in canc) \
+            and canc[0].get("mono") is not None and not res["timed_out"]:
+        t_c = canc[0]["mono"]
+        behs = {(t["bin"], t["name"]): t["attempts"] for t in sc["tests"]}
+        for key, lst in invocations(res).items():
+            for i in lst:
+                if i["start"] < t_c and (i["end"] is None or i["end"] > t_c):
+                    atts = behs.get(key) or [{}]
+                    beh = atts[min(i["attempt"] - 1, len(atts) - 1)]
+                    if "on_term" in beh:
+                        continue   # scripted to hang: ended by its own timeout, not by the cancellation
+                    how = i["how"] or "no end record (killed)"
+                    if not (how.startswith("exit-") and how[5:].isdigit()) and not how.startswith("raise-"):
+                        return (f"{key} attempt {i['attempt']} was running when the run was cancelled "
+                                f"({canc[0]['reason']}) and did not finish by itself: {how}")
     # the run ends as soon as the running tests have ended rather than sitting out retry delays
     if canc and not res["timed_out"]:
         ends = [i["end"] for lst in invocations(res).values() for i in lst if i["end"] is not None]
@@ -703,3 +720,21 @@ def stage(chk, prop, tier, seed, n_quick=14, n_thorough=120, par=4, gen=None):
     chk.sample(dict(e2e_scenario={k: v for k, v in scs[0].items() if k != "tests"},
                     tests=[(t["bin"], t["name"], t["mode"]) for t in scs[0]["tests"]]))
     return bad is None
+
+
+def replay_e2e(prop, d, times=3):
+    """re-run the scenario of an `oracle-e2e:<prop>` record through the property's oracle; exit status 1 if
+    any of the runs fails it again"""
+    sc = d.get("scenario")
+    if not sc or prop not in ORACLES:
+        return 2
+    rig = e2e.Rig()
+    rc = 0
+    for k in range(times):
+        res = run(rig, sc)
+        why = ORACLES[prop](sc, res)
+        print(f"replay run {k + 1}/{times}: exit status {res['rc']}; oracle: {why or 'accepts'}")
+        rig.cleanup(res)
+        if why:
+            rc = 1
+    return rc
